@@ -67,7 +67,21 @@ Section Walk.
   Theorem C05_unknown_node : forall c k ss fs ks, mem_str k known_kinds = false ->
     walk simple astr mredir cdres injrisk rulematch c (T k ss fs ks) = Ask.
   Proof. exact (walk_unknown simple astr mredir cdres injrisk rulematch). Qed.
+
+  (* the whole of analyze(), from the text: a text that is empty or white space only (in Python's sense), a text that
+     holds white space bash does not separate words at (form feed, carriage return, no-break space, ...), a text the
+     parser rejects or fails on, and an empty parse are all asked - whatever the parser oracle is *)
+  Theorem C05_text : forall (parse : str -> option (list tree)) c s,
+    (analyze_prelude s = None \/ (exists t, analyze_prelude s = Some t /\ (parse t = None \/ parse t = Some []))) ->
+    analyze_text simple astr mredir cdres injrisk rulematch parse c s = Ask.
+  Proof. exact (analyze_text_failclosed simple astr mredir cdres injrisk rulematch). Qed.
 End Walk.
+(* the text handed to the parser is not blank and its only white space is what bash separates words at *)
+Theorem C05_parsed_text : forall s t, analyze_prelude s = Some t ->
+  forallb py_space t = false /\ existsb (fun ch => py_space ch && negb (bash_blank ch)) t = false.
+Proof. exact analyze_prelude_text. Qed.
+Print Assumptions C05_text.
+Print Assumptions C05_parsed_text.
 Print Assumptions C05_parse.
 Print Assumptions C05_unknown_node.
 
@@ -75,3 +89,8 @@ Example C05_example :
   is_help [$"frobnicate"; $"--help"] = true /\ is_help [$"frobnicate"; $"a"; $"b"; $"-h"] = true /\
   is_help [$"frobnicate"; $"a"; $"b"; $"c"; $"-h"] = false /\ is_help [$"frobnicate"; $"a"; $"--version"] = false.
 Proof. vm_compute. repeat split; reflexivity. Qed.
+
+Example C05_prelude_example :
+  map analyze_prelude [$"  ls "; []; $" "; [12]; [160; 108; 115]; [108; 115; 13]; [9; 108; 115; 10]]
+  = [Some $"ls"; None; None; None; None; None; Some $"ls"].
+Proof. vm_compute. reflexivity. Qed.
